@@ -299,7 +299,58 @@ def run_overlap(R: Recorder, case: dict[str, Any], verbose: bool = False) -> Non
         R.monitor("nothing-left-running", fn[i]["finished_at"] is not None, where={**where, "kind": "function-still-running"}, detail=f"call {i}: {fn[i]}", case=case)
 
 
+def run_rewrap(R: Recorder, case: dict[str, Any], verbose: bool = False) -> None:
+    """w1 = timeout(A)(f) is kept; later w2 = timeout(B)(w1) is built from it: w1 keeps its own deadline A, w2 has min(A, B)"""
+    from haiway import timeout
+
+    A_, B_, d, which = case["A"], case["B"], case["d"], case["call"]
+    clock = VClock()
+    t0 = clock.now
+    got: dict[str, Any] = {}
+    value = ("value", object())
+
+    async def function() -> Any:
+        await asyncio.sleep(d)
+        return value
+
+    async def main(loop: Any) -> None:
+        w1 = timeout(A_)(function)
+        w2 = timeout(B_)(w1)
+        target = w1 if which == "inner-kept" else w2
+        try:
+            got["result"] = ("value", await target())
+        except BaseException as exc:  # noqa: BLE001
+            got["result"] = ("raise", exc)
+        got["at"] = clock.now - t0
+        await asyncio.sleep(10)
+
+    with patched_time(clock):
+        status, val, loop = run_virtual(main, clock=clock, max_iterations=20000)
+    deadline = A_ if which == "inner-kept" else min(A_, B_)
+    R.case(case, nontrivial=True)
+    R.count("rewrapped_timeouts")
+    where = {"family": "rewrap", "call": which, "scoped": False, "nested": "direct"}
+    if status != "ok" or "result" not in got:
+        R.monitor("terminates", False, where={**where, "kind": status}, detail=f"run ended {status} ({val!r})", case=case)
+        return
+    if d == deadline:
+        R.monitor("outcome", None)
+        return
+    res = got["result"]
+    if d < deadline:
+        ok, exp_at, exp = res[0] == "value" and res[1] is value, d, "its value"
+    else:
+        ok, exp_at, exp = res[0] == "raise" and type(res[1]) is TimeoutError, deadline, "TimeoutError"
+    R.monitor("outcome", ok, where={**where, "kind": "wrong-outcome", "expected": exp},
+              detail=f"w1 = timeout({A_})(f), w2 = timeout({B_})(w1), f needs {d}: calling {'w1' if which == 'inner-kept' else 'w2'} ended {res!r} at +{got.get('at')}; expected {exp} at +{exp_at}", case=case)
+    R.monitor("outcome-time", got.get("at") == exp_at, where={**where, "kind": "wrong-time"}, detail=f"ended at +{got.get('at')}, expected +{exp_at}", case=case)
+
+
 def overlap_cases(tier: str):  # noqa: ANN201
+    for A_, B_ in ((2.0, 0.5), (2.0, 1.0), (1.0, 2.0), (1.0, 1.0)):
+        for d in (0.25, 0.75, 1.5, 2.5):
+            for which in ("inner-kept", "outer"):
+                yield {"rewrap": True, "A": A_, "B": B_, "d": d, "call": which}
     starts = (0.0, 0.25, 0.5, 1.0)
     durs = (0.25, 0.5, 1.5, 3.0) if tier == "quick" else (0.25, 0.5, 0.75, 1.5, 2.25, 3.0)
     for T in (1.0, 2.0):
@@ -344,7 +395,7 @@ def run(R: Recorder, tier: str, seed: int, shard: int, nshards: int) -> None:
     R.flags["exhaustive_core"] = "full table durations x outcomes x timeouts x cancel instants x scoped (+ nested timeouts)"
     for i, case in enumerate(cases(tier)):
         if i % nshards == shard:
-            (run_overlap if case.get("overlap") else run_case)(R, case)
+            (run_rewrap if case.get("rewrap") else run_overlap if case.get("overlap") else run_case)(R, case)
 
 
 def replay(R: Recorder, case: dict[str, Any]) -> None:
@@ -354,4 +405,4 @@ def replay(R: Recorder, case: dict[str, Any]) -> None:
     if "stacking" in case:
         stacking.check_transparent(R, "outcome", "timeout", only=case["stacking"])
         return
-    (run_overlap if case.get("overlap") else run_case)(R, case, verbose=True)
+    (run_rewrap if case.get("rewrap") else run_overlap if case.get("overlap") else run_case)(R, case, verbose=True)
